@@ -28,7 +28,7 @@ CHECK_DEADLOCK FALSE
 """
 VAL_ID = {10.0: 1, 20.0: 2, 30.0: 3, 70.0: 7, "a": 201, "b": 202}
 LAB_ID = {"thickness": 1, "x": 2, "stk": 9}
-TYPES = ["Waves", "Images", "DiffractionPatterns", "PolarMeasurements", "RealSpaceLineProfiles"]
+TYPES = ["Waves", "Images", "DiffractionPatterns", "PolarMeasurements", "RealSpaceLineProfiles", "MeasurementsEnsemble"]
 
 
 def build(typ, init_axes, lazy):
@@ -43,7 +43,8 @@ def build(typ, init_axes, lazy):
         else:
             axes.append(A.ScanAxis(label="x", offset=float(Fraction(*a["off"])), sampling=float(Fraction(*a["samp"])), units="Å"))
         shape.append(a["n"])
-    base = {"Waves": (4, 4), "Images": (4, 4), "DiffractionPatterns": (4, 4), "PolarMeasurements": (2, 4), "RealSpaceLineProfiles": (5,)}[typ]
+    base = {"Waves": (4, 4), "Images": (4, 4), "DiffractionPatterns": (4, 4), "PolarMeasurements": (2, 4), "RealSpaceLineProfiles": (5,),
+            "MeasurementsEnsemble": ()}[typ]
     full = tuple(shape) + base
     arr = (np.arange(int(np.prod(full)), dtype=np.float64).reshape(full) % 97) * 0.25 + 1.0
     if typ == "Waves":
@@ -61,6 +62,8 @@ def build(typ, init_axes, lazy):
         return abtem.measurements.DiffractionPatterns(arr, sampling=0.05, ensemble_axes_metadata=axes)
     if typ == "PolarMeasurements":
         return abtem.measurements.PolarMeasurements(arr, radial_sampling=1.0, azimuthal_sampling=np.pi / 2, ensemble_axes_metadata=axes)
+    if typ == "MeasurementsEnsemble":
+        return abtem.measurements.MeasurementsEnsemble(arr, ensemble_axes_metadata=axes)
     return abtem.measurements.RealSpaceLineProfiles(arr, sampling=0.1, ensemble_axes_metadata=axes)
 
 
@@ -186,6 +189,8 @@ def replay_hist(typ, lazy, hist):
         op = step["op"]
         if op["k"] == "arith" and op["other"] == "array" and op["fn"] in ("rmul", "rtruediv"):
             continue
+        if op["k"] == "reduce" and op["axis"] < 0 and len(obj.base_shape) == 0:
+            continue      # the model's "base axis" reduction: an object without base axes has none
         if int(np.prod(obj.shape)) == 0:
             break         # an empty selection: no values left to compare, NumPy and dask themselves disagree on reductions      # ndarray (op) object dispatches to NumPy's broadcasting over the object, not to abTEM
         try:
